@@ -57,10 +57,15 @@ impl Monitor for CMon {
         }
         if kind == circ::verif::kind::RECLAIM_DEFER && b > 0 {
             REDEFERS.fetch_add(1, Relaxed);
-            let _ = c;
+            if std::env::var_os("VERIF_CHAIN_DEBUG").is_some() {
+                let st = crate::shadow::read_state(circ::verif::state_addr::<CNode>(_a));
+                eprintln!("DEFER depth {} cap={} at epoch {} (mod16 {}): child stamp {} drops so far {}", b, c, crate::runner::clock(), crate::runner::clock() % 16, st >> 60, DROPS.load(Relaxed));
+            }
         }
     }
 }
+
+const SHAPES: [&str; 16] = ["chain", "chain", "chain", "chain", "chain", "chain", "binary-tree", "binary-tree", "comb", "wide-tree", "right-spine", "zig-zag", "comb-right", "comb-right3", "random-tree", "random-tree"];
 
 /// Bound on epoch advances between releasing the head and the last destructor (C06). Measured on
 /// the repaired tree over 400 seeds: at most 18 advances for a single 1024-chunk, 30 for two,
@@ -115,7 +120,7 @@ pub fn gen(prop: &str, seed: u64, stack: bool) -> RunDesc {
     };
     cfg.max_objects = *rng.pick(&[8u32, 64, 64]);
     cfg.manual_interval = *rng.pick(&[8u32, 64, 64]);
-    let shape = rng.below(10); // 0..5 chain, 6..7 binary tree, 8 comb, 9 wide tree
+    let shape = rng.below(16); // see SHAPES
     let n: u64 = if stack {
         *rng.pick(&[1000u64, 3000, 5000, 20_000, 100_000, 300_000, 1_000_000, 2_000_000])
     } else {
@@ -142,7 +147,7 @@ pub fn gen(prop: &str, seed: u64, stack: bool) -> RunDesc {
     cfg.step_cap = 2_000_000 + 60 * n;
     let params = J::obj()
         .set("n", n)
-        .set("shape", ["chain", "chain", "chain", "chain", "chain", "chain", "binary-tree", "binary-tree", "comb", "wide-tree"][shape as usize])
+        .set("shape", SHAPES[shape as usize])
         .set("age_rounds", age)
         .set("link_writer", ["from_rc", "store", "swap", "compare_exchange"][writer as usize])
         .set("hold_at", hold.map(|h| h as i64).unwrap_or(-1))
@@ -205,6 +210,59 @@ fn build(shape: &str, n: u64, writer: u64, hold_at: i64, weak_at: &[u64], weaks:
                 slots[i] = node(i as u64, c0, c1, writer);
             }
             (std::mem::take(&mut slots[0]), held)
+        }
+        "right-spine" | "zig-zag" => {
+            // the only edge of node i sits in next[1] (right spine) or alternates (zig-zag), so a
+            // null edge precedes the non-null one in pop_edges order
+            let mut head: Rc<CNode> = Rc::null();
+            for i in (0..n).rev() {
+                let right = shape == "right-spine" || i % 2 == 1;
+                head = if right { node(i, Rc::null(), head, writer) } else { node(i, head, Rc::null(), writer) };
+            }
+            (head, held)
+        }
+        "comb-right" | "comb-right3" => {
+            // spine on next[1]; next[0] holds a leaf (or a 3-node subtree) that is popped first
+            let per = if shape == "comb-right" { 2 } else { 4 };
+            let levels = (n / per).max(1);
+            let mut head: Rc<CNode> = Rc::null();
+            let mut id = n + 10;
+            for _ in 0..levels {
+                id -= 1;
+                let side = if per == 2 {
+                    node(id + 1_000_000_000, Rc::null(), Rc::null(), writer)
+                } else {
+                    let a = node(id + 1_000_000_000, Rc::null(), Rc::null(), writer);
+                    let b = node(id + 2_000_000_000, Rc::null(), Rc::null(), writer);
+                    node(id + 3_000_000_000, a, b, writer)
+                };
+                head = node(id, side, head, writer);
+            }
+            (head, held)
+        }
+        "random-tree" => {
+            // random sparse binary structure: each new node adopts 0-2 of the subtrees built so far
+            let mut x = n.wrapping_mul(0x9E37_79B9_7F4A_7C15) | 1;
+            let mut next = || {
+                x ^= x << 13;
+                x ^= x >> 7;
+                x ^= x << 17;
+                x
+            };
+            let mut pool: Vec<Rc<CNode>> = Vec::new();
+            for i in 0..n {
+                let c0 = if !pool.is_empty() && next() % 10 < 6 { pool.swap_remove((next() % pool.len() as u64) as usize) } else { Rc::null() };
+                let c1 = if !pool.is_empty() && next() % 10 < 6 { pool.swap_remove((next() % pool.len() as u64) as usize) } else { Rc::null() };
+                pool.push(node(i, c0, c1, writer));
+            }
+            // join what is left into one structure along next[1]
+            let mut head: Rc<CNode> = Rc::null();
+            let mut i = n;
+            while let Some(t) = pool.pop() {
+                head = node(i, t, head, writer);
+                i += 1;
+            }
+            (head, held)
         }
         "comb" => {
             // a spine of n/2 nodes, each with a leaf on next[1]
@@ -270,6 +328,11 @@ fn destroyer(desc: &RunDesc, out: &mut Vec<(String, String)>, fam: &mut J) {
     let writer = ["from_rc", "store", "swap", "compare_exchange"].iter().position(|w| *w == p.gets("link_writer")).unwrap_or(0) as u64;
     let hold_at = p.geti("hold_at");
     let stack_check = p.getb("stack_check");
+    // With other threads around, a cascade may run on (and re-defer into the local bag of) a
+    // thread that is then not scheduled for a long time; reclamation latency is then the
+    // scheduler's, not the library's. The bound is judged in runs where the destroyer is alone;
+    // runs with noise threads still check conservation and survival of held nodes.
+    let judge_latency = p.getu("noise_threads") == 0;
     let mut soft = |sig: &str, det: String| {
         if !out.iter().any(|s| s.0 == sig) {
             out.push((sig.to_string(), det));
@@ -319,7 +382,7 @@ fn destroyer(desc: &RunDesc, out: &mut Vec<(String, String)>, fam: &mut J) {
         } else {
             let adv = r.e1 - r.e0;
             fam.put("prefix_advances", adv);
-            if adv > bound(h) {
+            if judge_latency && adv > bound(h) {
                 soft("latency-exceeds-bound", format!("{} nodes before a held node needed {} epoch advances (bound {})", h, adv, bound(h)));
             }
         }
@@ -327,7 +390,7 @@ fn destroyer(desc: &RunDesc, out: &mut Vec<(String, String)>, fam: &mut J) {
         let r2 = release_and_wait(held, total, max_rounds);
         let adv2 = r2.e1 - r2.e0;
         fam.put("suffix_advances", adv2);
-        if DROPS.load(Relaxed) == total && adv2 > bound(total - h) {
+        if judge_latency && DROPS.load(Relaxed) == total && adv2 > bound(total - h) {
             soft("latency-exceeds-bound", format!("suffix of {} nodes needed {} epoch advances after its holder let go (bound {})", total - h, adv2, bound(total - h)));
         }
         fam.put("rounds", r.rounds + r2.rounds);
@@ -337,7 +400,7 @@ fn destroyer(desc: &RunDesc, out: &mut Vec<(String, String)>, fam: &mut J) {
         fam.put("advances", adv);
         fam.put("rounds", r.rounds);
         fam.put("bound", bound(total));
-        if DROPS.load(Relaxed) == total && adv > bound(total) && !stack_check {
+        if judge_latency && DROPS.load(Relaxed) == total && adv > bound(total) && !stack_check {
             soft("latency-exceeds-bound", format!("{} of {} nodes ({}, links by {}, aged {} rounds) needed {} epoch advances after the head was released (bound {})", shape, total, shape, p.gets("link_writer"), p.getu("age_rounds"), adv, bound(total)));
         }
     }
